@@ -73,6 +73,7 @@ let vop_of toks = match toks with
   | ["vattr"; i; k; v] -> Some (VAttr (nat i, bytes_of_hex k, bytes_of_hex v))
   | ["vchild"; i; j] -> Some (VChild (nat i, nat j))
   | ["vsub"; i; j; k] -> Some (VSub (nat i, nat j, nat k))
+  | ["vassignsub"; i; j; k] -> Some (VSub (nat i, nat j, nat k))      (* same value step through operator= and a reference into slot j's element *)
   | ["vsubmut"; i; k; h] -> Some (VSubMut (nat i, nat k, bytes_of_hex h))
   | ["velcopy"; i; j] -> Some (VElCopy (nat i, nat j))
   | ["vdel"; i] -> Some (VDel (nat i))
@@ -127,6 +128,21 @@ let () =
        | ["parse"; h] ->
          if spec then emit "??*" else emit (res_str 1 (parse (bytes_of_hex h)));
          s
+       | ["parseok"; h] ->
+         (* a document that is well formed by construction (generator of checks/C16.py): it must be accepted *)
+         if spec then emit "ok ??*" else emit (res_str 1 (parse (bytes_of_hex h)));
+         s
+       | ["parseg"; h1; h2] ->
+         (* h1 well formed by construction, h2 = h1 with comments (and processing instructions in front of the root) inserted
+            where white space is allowed: both accepted, same names / attributes / nesting / character data (XmlSpec.squash) *)
+         (if spec then emit "1 | ok ??* | ok ??*" else begin
+            let r1 = parse (bytes_of_hex h1) and r2 = parse (bytes_of_hex h2) in
+            let same = (match r1, r2 with
+                | Ok a, Ok b -> squash a = squash b
+                | Syn _, Syn _ -> true
+                | _, _ -> false) in
+            emit (Printf.sprintf "%d | %s | %s" (if same then 1 else 0) (res_str 1 r1) (res_str 1 r2)) end);
+         s
        | ["parse2"; flag; h1; h2] ->
          (if spec then emit "1 | ??* | ??*" else begin
             let shared = (flag = "1") in
@@ -136,9 +152,11 @@ let () =
             emit (Printf.sprintf "1 | %s | %s" (res_str 1 r1) (res_str 1 r2)) end);
          s
        | ["pinto"; h] ->
-         (if spec then emit "1 | ??*" else begin
+         (* third section: the Element the target was copied from still holds the tree that was built *)
+         let src = (match s.stack with [] -> " -" | _ -> dump_s 0 (current s)) in
+         (if spec then emit ("1 | ??* |" ^ src) else begin
             let (_, r) = parse_with (new_parser (z_of_int 12345)) (current s) (bytes_of_hex h) in
-            emit ("1 | " ^ res_str 1 r) end);
+            emit ("1 | " ^ res_str 1 r ^ " |" ^ src) end);
          s
        | ["rtinto"] ->
          let e = current s in
@@ -266,6 +284,18 @@ let () =
                | LNotRead -> emit "fsl not-read")
             | _ -> emit "fsl save-failed");
          s
+       | ["vassignsubm"; i; k] ->
+         (* node = node.toElement().content[k]:  mutable access (touch), then the value of the own k-th content item *)
+         let i' = nat i in
+         let o2 = VSub (i', i', nat k) in
+         if spec then begin
+           let st1 = vstep s.store (touch_op s.store i') in
+           let hold = (match s.hold with Some (h, _) when h = int_of_string i -> None | h -> h) in
+           { s with store = vstep st1 o2; hold = hold }
+         end else begin
+           let h1 = hstep s.hs (HOp (VName (i', cur_name s.hs.hvs i'))) in
+           { s with hs = hstep h1 (HOp o2) }
+         end
        | _ ->
          (match vop_of toks with
           | Some o ->
